@@ -23,6 +23,11 @@ Big32  == WFromDigits(W, 16, <<1, 0, 0, 0, 0, 0, 0, 0, 1>>, WZero(W))      \* 2^
 Big32b == WFromDigits(W, 16, <<8, 0, 0, 0, 0, 0, 0, 0>>, WZero(W))         \* 2^31
 Big63  == WFromDigits(W, 16, <<7, 15, 14, 13, 12, 11, 10, 9, 8, 7, 6, 5, 4, 3, 2, 1>>, WZero(W))
 
+\* values just below 2^32: narrowed to 32 bits they look like small negative numbers
+Top32   == WFromDigits(W, 16, <<15, 15, 15, 15, 15, 15, 15, 15>>, WZero(W))     \* 0xffffffff
+Top32b  == WFromDigits(W, 16, <<15, 15, 15, 15, 15, 15, 8, 0>>, WZero(W))       \* 0xffffff80
+Top32c  == WFromDigits(W, 16, <<15, 15, 15, 15, 8, 0, 0, 0>>, WZero(W))         \* 0xffff8000
+Top32d  == WFromDigits(W, 16, <<15, 15, 15, 15, 15, 15, 7, 15>>, WZero(W))      \* 0xffffff7f
 Names == {"la", "lb", "lc"}
 
 DbVals == {-129, -128, -127, -1, 0, 1, 65, 127, 128, 254, 255, 256, 1000}
@@ -36,11 +41,13 @@ Stmts ==
      {[k |-> "org", a |-> a] : a \in {0, 1, 2, 16, 255, 4096, 32768, 65520, 65534, 65535, 65536, 65537, 1048575}}
   \cup {Data(1, <<Num(v)>>) : v \in DbVals}
   \cup {Data(1, <<Num(1), Num(2), Num(3)>>), Data(1, <<Str(<<72, 105>>), Num(0)>>),
-        Data(1, <<NumW(Big32)>>), Data(1, <<Here>>), Data(1, <<Sym("la")>>)}
+        Data(1, <<NumW(Big32)>>), Data(1, <<Here>>), Data(1, <<Sym("la")>>),
+        Data(1, <<NumW(Top32)>>), Data(1, <<NumW(Top32b)>>), Data(1, <<NumW(Top32d)>>), Data(1, <<Num(1), NumW(Top32), Num(2)>>)}
   \cup {Data(1, <<Str(b)>>) : b \in StrSet}
   \cup {DataZ(<<Str(b)>>) : b \in StrSet}
   \cup {DataZ(<<Str(<<65>>), Str(<<66, 67>>)>>)}
   \cup {Data(2, <<Num(v)>>) : v \in DwVals}
+  \cup {Data(2, <<NumW(Top32)>>), Data(2, <<NumW(Top32c)>>), Data(2, <<Num(4660), NumW(Top32c)>>)}
   \cup {Data(2, <<Num(4660), Num(-1)>>), Data(2, <<Here>>), Data(2, <<Sym("lb")>>), Data(2, <<NumW(Big32)>>),
         Data(2, <<Num(1), Here, Sym("lc")>>)}
   \cup {Data(4, <<Num(v)>>) : v \in DlVals}
